@@ -542,8 +542,10 @@ static void do_heap_op(const Op& op) {
         probe(PR_heap_absorb);
         resolve_backing();
         bool compatible = (m.tag == 0 && m.arena_slot < 0);
+        // a heap the backing heap cannot absorb abandons its pages: from the first step of the call on another thread may adopt them
+        if (!compatible) for (auto& kv : H.live) if (kv.second->heap == mh) { kv.second->heap = -1; kv.second->orphan_kind = (m.tag != 0 ? 2 : 3); if (m.tag != 0) H.tag_orphans_ever++; }
         mi_heap_delete(m.h);
-        for (auto& kv : H.live) if (kv.second->heap == mh) { kv.second->heap = (compatible ? T->backing : -1); if (!compatible) { kv.second->orphan_kind = (m.tag != 0 ? 2 : 3); if (m.tag != 0) H.tag_orphans_ever++; } }
+        if (compatible) for (auto& kv : H.live) if (kv.second->heap == mh) kv.second->heap = T->backing;
       }
       H.heaps[mh].alive = false; H.heaps[mh].h = nullptr; T->hslots[hs] = -1;
       if (T->deflt == mh) T->deflt = T->backing;
@@ -749,7 +751,8 @@ static void prog_main(int vt, void* arg) {
   sched_call_begin();
   thread_exit_model(t);      // from here on the thread's pages may be adopted by anybody
   if (P.explicit_done) mi_thread_done();
-  else sched_run_tls_destructor();
+  sched_run_tls_destructor();      // a real thread exit runs the key destructor also after an explicit mi_thread_done (it finds the empty heap, or whatever
+                                   // heap the thread created again in the meantime: the debug build re-initialises the thread inside mi_thread_done for its statistics)
   t->done = true;
 }
 
